@@ -61,11 +61,7 @@ func (fr *frame) callWithArgs(st *state, c *ssa.CallCommon, instr ssa.Instructio
 			}
 			fr.fc.atHit[text] = true
 			env := fr.specEnv(st, fr.old)
-			for k, v := range fr.localsAt(instr.Block()) {
-				if _, ok := env.vars[k]; !ok {
-					env.vars[k] = v
-				}
-			}
+			env.vars = fr.shadowed(env.vars, instr.Block())
 			fr.evalBlock = instr.Block()
 			for i, cl := range cls {
 				label := cl.Label
@@ -83,11 +79,7 @@ func (fr *frame) callWithArgs(st *state, c *ssa.CallCommon, instr ssa.Instructio
 		}
 		fr.fc.atHit["after:"+text] = true
 		env := fr.specEnv(st, fr.old)
-		for k, v := range fr.localsAt(instr.Block()) {
-			if _, ok := env.vars[k]; !ok {
-				env.vars[k] = v
-			}
-		}
+		env.vars = fr.shadowed(env.vars, instr.Block())
 		sig := c.Signature()
 		for i := 0; i < sig.Results().Len() && i < len(res); i++ {
 			rt := sig.Results().At(i).Type()
